@@ -15,7 +15,7 @@ from mc import env  # noqa
 from mc.kernel import Family
 from mc import docgen
 from mc.docgen import Product
-from mc.spec import build, fp_isd, fp_isd_render, walk
+from mc.spec import build, fp_isd, fp_isd_render, walk, node, text, doc_spec
 from mc.ref_isd import probe_times, abstract_isd
 from mc.props import c01
 
@@ -172,6 +172,28 @@ def fam_anim(nsteps, step_times=None):
                 note="element/region at a non-zero offset carrying set steps")
 
 
+def fam_anim_twins():
+  """two elements that begin at different times and carry animation steps that are equal as values (same property, same
+  relative begin / end, same value): each contributes its own significant times"""
+  prod = Product([[F(0), F(1)], [F(5), F(10)], [(F(1), F(2)), (None, F(2)), (F(1), None)], [("Color", RED), ("Display", docgen.NONE)], ["p", "span"], [0, 1]])
+
+  def decode(i):
+    b1, b2, (sb, se), (prop, val), lv, third = prod.decode(i)
+    def para(k):
+      sp_ = node("span", [text("t%d" % k)], id=f"s{k}")
+      pp = node("p", [sp_], id=f"p{k}", r="r1")
+      (pp if lv == "p" else sp_)["an"] = [[prop, sb, se, val]]
+      return pp
+    # the animated element begins together with its parent (the div carries the begin): the listed finding about steps of
+    # elements that do not begin with their parent is not what this family is about
+    divs = [node("div", [para(1)], id="d1", b=b1, e=b1 + 4), node("div", [para(2)], id="d2", b=b2, e=b2 + 4)]
+    if third:
+      divs.append(node("div", [para(3)], id="d3", b=b2 + 6, e=b2 + 10))
+    return {"spec": doc_spec(node("body", divs, id="b"), [{"id": "r1"}]), "key": f"F-anim-twins#{i}"}
+  return Family("F-anim-twins", prod.n, decode, check_doc, shrink=c01.shrink_doc, timeout=30,
+                note="equal-valued animation steps on two or three elements that begin at different times")
+
+
 HIDE = [("Opacity", 0, 1.0), ("Display", docgen.NONE, docgen.AUTO), ("Visibility", ["E", "VisibilityType", "hidden"], ["E", "VisibilityType", "visible"]),
         ("ShowBackground", ["E", "ShowBackgroundType", "whenActive"], ["E", "ShowBackgroundType", "always"]), ("BackgroundColor", ["C", 0, 0, 0, 0], RED)]
 
@@ -221,6 +243,7 @@ def plan(tier, seed):
   fams.append(fam_anim(1))
   fams.append(fam_anim(2))
   fams.append(fam_region_bg())
+  fams.append(fam_anim_twins())
   if tier == "thorough":
     fams.append(fam_anim(3, STEP_TIMES[::2]))
   return fams
